@@ -189,7 +189,7 @@ def run(tier: str) -> Check:
     for cat, msgs in sorted(cats_c.items()):
         check.oblige("CONTEXT", ccon, cat, False, sample=True, finding=Finding("CONTEXT", ccon, cat, f"_error_context: {cat}: e.g. {msgs[0]} ({len(msgs)} of {n_c} model points)", {"witness": msgs[0]}))
     check.floor("context_model_points", 500)
-    check.floor("reachable_functions", 100)
+    check.floor("reachable_functions", 50)  # a vacuity guard, not a census
     check.floor("may_raise_sites", 30)
     check.floor("with_children_arity", 20)
     check.floor("token_constructions", 4)
